@@ -98,7 +98,7 @@ class TensorNetwork:
         shape = self.shape
         for j in idxout:
             if not any(j in tidx[i] for i in range(len(tidx))):
-                args.append(np.ones(shape[axes_map.index(j)]))
+                args.append(np.ones(shape[axes_map.index(idxout.index(j))]))
                 args.append([j])
         args.append(idxout)
         return np.einsum(*args, optimize=True), axes_map
